@@ -29,8 +29,8 @@ Outside the property (not generated): integer-typed screw tables, non-contiguous
 ProjectToSO3/SE3 on matrices whose determinant is not positive.
 """
 import hashlib
-import itertools
 import math
+import os
 import time
 
 import numpy as np
@@ -389,7 +389,7 @@ def parts(tier, seed):
             return [("JacobianSpace", (S, th), {}), ("JacobianBody", (S, th), {})]
         return g
     for n in (1, 2, 3):
-        out.append(Part("fk%d" % n, _chain_dims(nJ, n, 4) + [len(Mh)], mk_fk(n, TH4, False), weight=0.13 * n + 0.08))
+        out.append(Part("fk%d" % n, _chain_dims(nJ, n, 4) + [len(Mh)], mk_fk(n, TH4, False), thin_quick=(1, 1, 3)[n - 1], weight=0.13 * n + 0.08))
         out.append(Part("jac%d" % n, _chain_dims(nJ, n, 4), mk_jac(n, TH4, False), weight=0.15 * n + 0.07))
     # thorough: n = 4 complete over the 8 base joint screws (the seed-generic screw takes part for n <= 3)
     out.append(Part("fk4", _chain_dims(8, 4, 4) + [1], mk_fk(4, TH4, False), tiers=("thorough",), weight=0.6))
@@ -425,7 +425,7 @@ def parts(tier, seed):
         return g
     out.append(Part("ik1", [nJ, 2, 4, 3], mk_ik(1, False), weight=1.5))
     out.append(Part("ik2", [nJ, nJ, 2, 2, 7, 3], mk_ik(2, False), weight=3.0))
-    out.append(Part("ik3", [nJ] * 3 + [2] * 3 + [10, 3], mk_ik(3, False), thin_quick=13, thin_thorough=2, weight=2.8))
+    out.append(Part("ik3", [nJ] * 3 + [2] * 3 + [10, 3], mk_ik(3, False), thin_quick=29, thin_thorough=2, weight=2.8))
     for n in (4, 5, 6, 7):
         out.append(Part("ikw%d" % n, [8, 4, 1 + 3 * n, 3], mk_ik(n, True), thin_quick=5, weight=2.0 * n))
 
@@ -593,8 +593,10 @@ def parts(tier, seed):
         def g(mi):
             S, r = tchain(n, win, mi)
             Ml, Gl = link_params(n, r[0])
-            Mt, Gt = link_params(n, (r[0] + r[1]) % 4)          # r[1] = 1: the controller's model differs from the plant
-            gt = G_PAL[(r[3], 1)[r[1]]].copy()
+            # r[1] = 1: the controller's model differs mildly from the plant (inertias +10 %, other gravity estimate); a gross
+            # mismatch (mass 0.1 <-> 50) makes the explicit Euler loop diverge to 1e+80 and the comparison meaningless
+            Mt, Gt = Ml.copy(), Gl * (1.0, 1.1)[r[1]]
+            gt = (G_PAL[r[3]] * (1.0, 0.9)[r[1]] + (0.0, 0.05)[r[1]]).copy()
             N, ir = N_DYN[r[5]], INTRES[r[6]]
             Kp, Ki, Kd = ((20.0, 10.0, 18.0), (1.3, 1.2, 1.1))[r[2]]
             return [("SimulateControl", (GEN_A[:n] * 0.5, GEN_B[:n] * 0.5, G_PAL[r[3]].copy(), matrices(N, 6, (0, 3)[r[4]]), Ml, Gl, S,
@@ -653,6 +655,13 @@ def case_key(fname, args):
         else:
             h.update(_rr(np.array([a], float)).tobytes())
     return int.from_bytes(h.digest(), "little")
+
+
+DIVERGED = 1e6
+
+
+def _maxabs(x):
+    return max([float(np.abs(v).max()) for sh, v in flatten_out(x) if sh != "tuple" and v.size] or [0.0])
 
 
 class ShapeMismatch(Exception):
@@ -750,6 +759,9 @@ class Eval:
         st, val = compare(p, r, tol)
         if st == "ref_not_finite":
             acc.skip("reference_not_finite")
+            return
+        if fname in INTEGRATED and _maxabs(r) > DIVERGED:
+            acc.skip("integration_diverged")         # explicit Euler blew up in the reference itself: rounding decides the digits
             return
         if st == "shape":
             acc.violation("shape", case, val, None, {}, fl)
@@ -890,24 +902,30 @@ def _brief(args):
 def rule_text(tier, PS):
     thinned = ["%s: every %dth of %d" % (q.name, q.stride(tier), q.total) for q in PS if q.stride(tier) > 1]
     return ("per shared function: complete row-major Cartesian product of its argument palettes (rotation axes x angles x translations; "
-            "joint-screw chains J^n, n<=3%s, x joint values {0,1e-7,0.3,-1.2}^n; cyclic windows n=4..7 of a fixed 8-joint sequence x {0.3,-1.2}^n; "
+            "joint-screw chains J^n (6 revolute + 2 prismatic + 1 seed-generic screw), n<=3%s, x joint values {0,1e-7,0.3,-1.2}^n "
+            "({0.3,-1.2}^3 for dynamics and IK goals at n=3); cyclic windows n=4..7 of a fixed 8-joint sequence x {0.3,-1.2}^n; IK starts = goal "
+            "+ {0,0.02,0.3,2.0} e_i x 3 tolerance pairs; "
             "4 link-parameter schedules (4 link frames, 2 SPD inertias, masses 0.1/50); qd in {0,e_i,generic}; (qdd|tau, g, Ftip) complete "
             "product for n<=2 and one-factor-at-a-time star + 3 mixed for n>=3; N=2..12 x both scalings; N in {2,3,5,12} x intRes in {1,2,8}); "
             "each case = one port call and one reference call on equal float64 C-contiguous arguments. Parts too costly for this tier are "
             "thinned deterministically to every k-th multi-index, k the smallest integer >= the target coprime to every palette size, so "
             "that every value of every palette still occurs [%s]. A case is non-trivial when both libraries returned and the reference "
             "result is finite (it was actually compared); distinct = distinct blake2b key of (function name, arguments rounded to 9 "
-            "significant digits)." % (" (n<=4 for FK/Jacobians)" if tier == "thorough" else "", "; ".join(thinned) or "none"))
+            "significant digits)." % (" (n=4 over the 8 base screws for FK/Jacobians)" if tier == "thorough" else "", "; ".join(thinned) or "none"))
 
 
 def run(ctx):
     PS = parts(ctx.tier, ctx.seed)
+    only = [x for x in os.environ.get("C02_PARTS", "").split(",") if x]     # debugging aid: restrict to parts by name prefix
+    if only:
+        PS = [q for q in PS if any(q.name.startswith(o) for o in only)]
+        ctx.notes.append("PARTIAL RUN: C02_PARTS=%s" % ",".join(only))
     names = set()
     # which functions the part table reaches (generated from one index per part, no library call)
     for q in PS:
         for fname, _, _ in q.gen(decode(0, q.dims)):
             names.add(fname)
-    if names != set(SHARED):
+    if names != set(SHARED) and not only:
         raise HarnessError("argument generators do not cover the 47 shared names: missing %s extra %s"
                            % (sorted(set(SHARED) - names), sorted(names - set(SHARED))))
     ref = _ref()
@@ -927,7 +945,7 @@ def run(ctx):
     ctx.log("C02: %d parts, %d shards, %d selected multi-indices" % (len(PS), len(payloads), sum(len(q.selected(ctx.tier)) for q in PS)))
     with ctx.pool() as pool:
         res = pool.map(MOD, "work", [payloads[i][0] for i in order], deadline=ctx.deadline)
-    complete = len(res) == len(payloads)
+    complete = len(res) == len(payloads) and not only
     by = {}
     for r in res:
         by.setdefault(r["part"], []).append(r)
@@ -989,7 +1007,7 @@ def run(ctx):
     step = max(1, len(smp) // 12)
     ctx.coverage["samples"] = smp[::step][:12]
     never = [f for f in SHARED if per_fn.get(f, {}).get("evaluations", 0) == 0]
-    if never and complete:
+    if never and complete and not only:
         raise HarnessError("no case was generated for: " + ", ".join(never))
     ctx.assumptions += ["reference = vendored modern_robotics 1.1.1 core.py (never the site-packages copy)",
                         "float64 C-contiguous arguments only; each library gets its own fresh copies",
